@@ -182,6 +182,15 @@ func (g *gen) genLib() {
 	if g.chance(25) {
 		vars[g.n(len(vars), "lvi")].ViaInit = true
 	}
+	if g.chance(50) {
+		// var V2 = func(p0 int, p1 int) int { return p0%1009*7 + p1%1009 }: two parameters (side3.go feeds it one call with two results)
+		v2 := Func{Name: libV2Name, AsVar: true, Params: []Field{{"p0", "int"}, {"p1", "int"}}, Results: ir,
+			Body: []*Node{retN(bin("+", bin("*", bin("%", vr("p0"), ilit(1009)), ilit(7)), bin("%", vr("p1"), ilit(1009))))}}
+		if g.chance(20) {
+			v2.ViaInit = true
+		}
+		vars = append(vars, v2)
+	}
 	g.libFuncs = append(g.libFuncs, vars...)
 }
 
